@@ -460,6 +460,9 @@ VEL_TYPE = ("distancevel", "velocity")
 
 def check_property(opm, System, kind, case, extra):
     """-> None | (signature, what). `kind` names the symmetry, `extra` its parameters."""
+    from props import c20_ext
+    if kind in c20_ext.KINDS:
+        return c20_ext.KINDS[kind](opm, System, case)
     name = case["op"][0]
     if kind == "translation":
         r = pred_pair(opm, System, case, translated(case, extra["t"]))
@@ -1291,6 +1294,10 @@ def run(ctx):
             ev("image-shift", c, {"ks": [[rng.randint(-3, 3) for _ in range(3)] for _ in c["pos"]]})
     ctx.extra["path_reverse"] = ("velocity-type orders after Path.reverse are judged by check_path on a fixed witness set (Velocity, "
                                  "Distancevel; file and explicit-array frames) and on the random sequences: signature " + SIG_PR)
+    # ---- extension pass: pbc_dist_coordinate itself, constructors / create_orderparameter, calculate_order and
+    #      Path.reverse as whole operations against Model/GeomCtor.lean and Model/GeomFlow.lean
+    from props import c20_ext
+    c20_ext.run(ctx, opm, System)
     new_assumptions = [
         "system.pos/vel are float (N,3) arrays, system.box is None or a 1-D float array (the default 3x3 zero box of a bare System() is not modelled)",
         "sqrt/arctan2/rad2deg/sin/cos and the final quotients are applied outside the Lean model (same formulas in floating point, compared at rel 1e-9; angles through sin/cos)",
